@@ -12,15 +12,37 @@ func init() {
 	register(&Rule{
 		ID:    "C03",
 		Title: "trust comes only from the stores the applicable policy names, typed by scheme",
-		Run:   runC03,
+		Run:   runC03All,
 		Explain: "(a) who-may-call: X509TrustStore.GetCertificates is invoked at exactly one product site; (b) at that site the type argument is the loader's type parameter, the name is the part after ':' of an element of the trustStores parameter, " +
 			"the call is cut by separator-found and by wanted type == prefix (mismatch never reaches the call), a load error leaves the iteration only through failing exits, failing exits return a nil slice, and the result slice is appended only from those calls; " +
 			"(c) scheme -> store type: ca iff notary.x509, signingAuthority iff notary.x509.signingAuthority, anything else fail-closed; tsa only for notary.x509 and only from the timestamp path; the scheme is the verified envelope's; " +
 			"(d) the name, stores, identities and signatureVerification handed to the signature processing are fields of the one statement returned by the selection function, and the loader receives that stores parameter; " +
-			"(e) signature.VerifyAuthenticity receives exactly the loader's certificates, an empty set and a verification error are failing results, a loader error becomes the authenticity result's Error.",
-		NotCov:  "certificate identity (x509.Certificate.Equal inside notation-core-go's VerifyAuthenticity), the trust store's own loading rules (C13).",
+			"(e) signature.VerifyAuthenticity receives exactly the loader's certificates, an empty set and a verification error are failing results, a loader error becomes the authenticity result's Error; " +
+			"(f) store/*: the store implementation returns, for (type, name), exactly what it just read from the directory of that type and name (the exact-set and known-type obligations of C13, re-decided here: a cache keyed by name alone hands a ca store to a signingAuthority signature); " +
+			"(g) applicable/*: the statement whose stores are used is the one selected for the artifact (the selection obligations of C08, re-decided here: stores listed only by other statements never confer trust).",
+		NotCov:  "certificate identity (x509.Certificate.Equal inside notation-core-go's VerifyAuthenticity), the trust store's per-file validity rules (C13).",
 		Trusted: []string{"go/types, go/ssa", "notation-core-go signature.VerifyAuthenticity", "strings.Cut"},
 	})
+}
+
+// runC03All: the loader / mapping / authenticity obligations, plus the two neighbouring clauses the statement names explicitly
+// ("typed by scheme": the store implementation is keyed by type and name; "the applicable policy statement": selection), which
+// are decided by the rules of C13 and C08 and recorded here under C03 keys so that a change that breaks them is reported for C03 too.
+func runC03All(c *Ctx) {
+	runC03(c)
+	c.importObls("C13", runC13, "store/", func(k string) bool {
+		return strings.HasPrefix(k, "exact-set/") || strings.HasPrefix(k, "gate/known-type") || strings.HasPrefix(k, "anchor")
+	})
+	c.importObls("C08", runC08, "applicable/", func(k string) bool {
+		for _, p := range []string{"oci/anchor", "oci/loop", "oci/no-early-exit", "oci/selection-predicate", "oci/precedence", "blob/by-name", "blob/global", "blob/not-found/"} {
+			if strings.HasPrefix(k, p) {
+				return true
+			}
+		}
+		return false
+	})
+	c.MinCount("store/", 4, "store implementation obligations")
+	c.MinCount("applicable/", 5, "statement selection obligations")
 }
 
 const getCertsName = "invoke:ngo/verifier/truststore.X509TrustStore.GetCertificates"
